@@ -235,6 +235,10 @@ class PosInterp:
         a = fn.node.args
         names = [x.arg for x in [*a.posonlyargs, *a.args]]
         env: dict[str, Any] = dict(zip(names, args))
+        if a.vararg is not None:
+            env[a.vararg.arg] = tuple(args[len(names):])          # *rest takes the positional arguments beyond the named ones
+        elif len(args) > len(names):
+            raise Raised(f'TypeError: {fn.qualname}() takes {len(names)} positional arguments but {len(args)} were given')
         env.update(kwargs)
         defaults = dict(zip(names[len(names) - len(a.defaults):], a.defaults))
         for n in names:
